@@ -106,7 +106,7 @@ var debugFields = map[string]bool{
 
 // C13: options do only what they say.
 func C13(p *core.Program, r *core.Report) {
-	r.Explanation = "L1: values of log-flag predicates (Logger.IsLog*, hasFlag, logger==nil) are used only as branch conditions. L2: for every such branch the log region (the blocks that become unreachable when the logging-enabled edge is removed) is write-only: it stores only into locals created inside it or into the two reviewed debug maps, calls only log sinks, unanalysed standard-library formatting, or functions whose effect summary (PEA) writes no tracked region, parameter, package-level state or pre-existing struct field other than those debug maps; no value computed inside the region is merged back into the normal flow (phi) and no result-bearing return sits inside it. L3/L4: all decision paths of Apply are enumerated with the stores into Result as events: PaginationInfo is stored exactly when !SkipPagination && OriginalURL != nil, URL exactly when OriginalURL != nil and from OriginalURL.String(), every other result field is stored on every successful path from values that mention neither pagination option, and Apply branches on nothing but the documented conditions. L5: the pagination finders write neither the document nor the page URL they are given (effect summaries), so the choice of algorithm cannot leak into later results. L6: no code below the entry points writes the caller's Options or the URL they point to (effect analysis, shared with C10), so Result.URL, rendered after extraction, is the supplied URL. L2 also treats append/copy into a re-slice of storage that exists outside the log region (filter-in-place) as a write. L7: ApplyForURL works with the supplied string parsed by url.Parse (fragment-aware), so Result.URL is the supplied URL. L8: the options ApplyForURL hands on are one whole-struct copy of the caller's with only OriginalURL set afterwards."
+	r.Explanation = "L1: values of log-flag predicates (Logger.IsLog*, hasFlag, logger==nil) are used only as branch conditions. L2: for every such branch the log region (the blocks that become unreachable when the logging-enabled edge is removed) is write-only: it stores only into locals created inside it or into the two reviewed debug maps, calls only log sinks, unanalysed standard-library formatting, or functions whose effect summary (PEA) writes no tracked region, parameter, package-level state or pre-existing struct field other than those debug maps; no value computed inside the region is merged back into the normal flow (phi) and no result-bearing return sits inside it. L3/L4: all decision paths of Apply are enumerated with the stores into Result as events: PaginationInfo is stored exactly when !SkipPagination && OriginalURL != nil (and, where Apply tests it, the URL has a host), URL exactly when OriginalURL != nil and from OriginalURL.String(), every other result field is stored on every successful path from values that mention neither pagination option, and Apply branches on nothing but the documented conditions. L5: the pagination finders write neither the document nor the page URL they are given (effect summaries), so the choice of algorithm cannot leak into later results. L6: no code below the entry points writes the caller's Options or the URL they point to (effect analysis, shared with C10), so Result.URL, rendered after extraction, is the supplied URL. L2 also treats append/copy into a re-slice of storage that exists outside the log region (filter-in-place) as a write. L7: ApplyForURL works with the supplied string parsed by url.Parse (fragment-aware), so Result.URL is the supplied URL. L8: the options ApplyForURL hands on are one whole-struct copy of the caller's with only OriginalURL set afterwards."
 	r.NotCovered = "that both pagination algorithms agree with each other; wall-clock TimingInfo; effects of logging on the log output stream itself."
 
 	a := runPEA(p)
@@ -476,6 +476,7 @@ func C13(p *core.Program, r *core.Report) {
 	o := `μ($1|new(distiller.Options))`
 	atomSkip := o + `.SkipPagination`
 	atomNoURL := o + `.OriginalURL == nil`
+	atomNoHost := o + `.OriginalURL.Host == ""`
 	wantAtoms := map[string]bool{
 		`$0.Type == html.ElementNode`:      true,
 		`$1 == nil`:                        true,
@@ -484,6 +485,8 @@ func C13(p *core.Program, r *core.Report) {
 		atomNoURL:                          true,
 		o + `.PaginationAlgo == distiller.PageNumber`: true,
 		atomSkip: true,
+		// a page URL without a host is no address to look for neighbours of (C16-Q7)
+		atomNoHost: true,
 	}
 	var extra []string
 	for at := range atoms {
@@ -503,13 +506,15 @@ func C13(p *core.Program, r *core.Report) {
 			continue
 		}
 		nOK++
-		skip, noURL := 0, 0
+		skip, noURL, noHost := 0, 0, 0
 		for _, l := range pa.Lits {
 			switch l.Atom {
 			case atomSkip:
 				skip = tern(l.Val)
 			case atomNoURL:
 				noURL = tern(l.Val)
+			case atomNoHost:
+				noHost = tern(l.Val)
 			}
 		}
 		stores := map[string]string{}
@@ -524,7 +529,7 @@ func C13(p *core.Program, r *core.Report) {
 			}
 		}
 		_, hasPag := stores["PaginationInfo"]
-		wantPag := skip == -1 && noURL == -1
+		wantPag := skip == -1 && noURL == -1 && noHost != 1
 		if hasPag != wantPag {
 			addOnce(r, seenV, "L3", "PaginationInfo is filled exactly when pagination is requested and a page URL is given", pa.Pos,
 				fmt.Sprintf("SkipPagination=%s OriginalURL==nil=%s but PaginationInfo stored=%v", ternS(skip), ternS(noURL), hasPag), pa.String())
